@@ -8,7 +8,7 @@
 From Coq Require Import ZArith List Bool NArith.
 From Coq.Strings Require Import Byte String.
 From EsVerif.Common Require Import Base Bytes.
-From EsVerif.C01 Require Import Framing Model Spec Layout Big.
+From EsVerif.C01 Require Import Framing Model Spec Layout Big Pyval Uncond.
 Import ListNotations.
 Open Scope Z_scope.
 Open Scope list_scope.
@@ -145,3 +145,15 @@ Definition v_big_recfile (dt : dtype) (rows : list (list byte)) (nrows : option 
    Never 0: 3 when the window differs from the rows of the table (a failing input), else 1. *)
 Definition v_big_window (rows : list (list byte)) (r : Z) (window : list (list byte)) : Z :=
   verdict false (rows_eqb window (firstn (length window) (skipn (Z.to_nat r) rows))).
+
+(* ---- the Python layer (Pyval.v / Uncond.v) against the REAL pformat / eval / numpy.dtype:
+   [real] is the text the real pprint.pformat produced, [uhdr] the user's header and [head] the dict
+   the real _make_header built from it (dict order; nested dicts sorted as pformat prints them),
+   [mirror] the harness's own rendering of Pyval.pv_print for [head] (the harness also hands it to
+   the real eval and compares the result with the header), [dt] the dtype of the data.
+   0 iff Uncond.hpf_check accepts — the real text satisfies clause (a) of H_pf, the model's
+   _make_header gives exactly [head], the VERIFIED parser reads the real text back to a dict equal
+   to [head] (Properties.C01_hpf_check_sound: then H_pf holds for the real text) — and the model
+   printer's text for [head] is [mirror] *)
+Definition v_hpf_real (real : list byte) (uhdr head : hdict pv) (mirror : list byte) (dt : dtype) : Z :=
+  if hpf_check real uhdr head dt && bytes_eqb (py_pformat head) mirror then 0 else 1.
